@@ -156,3 +156,24 @@ func VerifC11Streamed() {
 		symAssert(len(w.body) >= len(c)+1, "streamed failure: partial output is kept (documented)")
 	}
 }
+
+// VerifC11BigThenNext: a large response (beyond the sizes at which buffers are typically
+// treated specially) that fails or succeeds, then an ordinary request through the same pool.
+func VerifC11BigThenNext() {
+	size := []int{100, 4096, 5000, 65536, 70000}[symChoose(5)]
+	big := make([]byte, size)
+	for i := range big {
+		big[i] = 'x'
+	}
+	tail := symString("tail", symParam("N"))
+	fail := symBool("fail")
+	w := verifServe(Handler(verifChunks([]string{string(big), tail}, fail)))
+	symCover("big")
+	if fail {
+		symAssert(w.status == 500 && string(w.body) == componentHandlerErrorMessage+"\n", "a failed large render sends only the error response")
+	} else {
+		symAssert(w.status == 200 && len(w.body) == size+len(tail) && string(w.body[size:]) == tail, "a large document is sent completely")
+	}
+	w2 := verifServe(Handler(verifChunks([]string{"second"}, false)))
+	symAssert(w2.status == 200 && string(w2.body) == "second", "the next request is unaffected (no bytes of the earlier response)")
+}
